@@ -546,7 +546,10 @@ func genClient(seed int64, n int, tier string, w *bufio.Writer) {
 	for done := 0; done < n; {
 		emit("reset")
 		allowEarly := r.Intn(6) == 0
-		allowTwoPings := r.Intn(8) == 0
+		// pings carry no identifier: any number may be outstanding.  Some episodes are ping-heavy
+		// (several outstanding pings, PINGRESPs interleaved with the other acknowledgements, more
+		// PINGRESPs than pings).
+		pingy := r.Intn(4) == 0
 		allowOverlapFilters := r.Intn(5) == 0
 		if r.Intn(8) == 0 {
 			switch r.Intn(4) {
@@ -611,7 +614,11 @@ func genClient(seed int64, n int, tier string, w *bufio.Writer) {
 				}
 				return ""
 			}
-			switch k := r.Intn(100); {
+			k := r.Intn(100)
+			if pingy && r.Intn(4) == 0 {
+				k = 95 + r.Intn(5)
+			}
+			switch {
 			case k < 22:
 				a := pub()
 				if allowEarly && r.Intn(3) == 0 && ackFor(a) != "" {
@@ -723,16 +730,25 @@ func genClient(seed int64, n int, tier string, w *bufio.Writer) {
 					emit("peer unsuback %d", 1+r.Intn(30))
 				}
 			case k < 98:
-				if pingsOut == 0 || allowTwoPings {
-					emit("api ping %d", tag)
-					pingsOut++
+				// another ping, whether or not earlier ones are outstanding (fewer the more there are)
+				if r.Intn(2+pingsOut) <= 1 {
+					t := tag
+					if r.Intn(10) == 0 {
+						t = 0 // no completion callback: still takes its PINGRESP
+					}
+					if allowEarly && r.Intn(4) == 0 {
+						emit("early ping %d | pingresp", t)
+					} else {
+						emit("api ping %d", t)
+						pingsOut++
+					}
 				} else {
 					emit("peer pingresp")
-					pingsOut = 0
+					pingsOut--
 				}
 			default:
 				if r.Intn(2) == 0 {
-					emit("peer pingresp")
+					emit("peer pingresp") // possibly with no ping outstanding
 					if pingsOut > 0 {
 						pingsOut--
 					}
